@@ -49,6 +49,8 @@ ASSUMPTIONS = [
     "table must be functional, modulo the case index embedded in location strings)",
     "results are compared modulo the case index that the runner embeds in location/message strings "
     "(`testCases[i]`), which names the case and is not state",
+    "an exception escaping from a VARIANT case (other than the harness's own injected mock-API fault) counts as a "
+    "violation: the theorems exclude crashing cases by hypothesis, the property text does not",
     "setup errors (overlayResource while no current resource exists) abort the run even in a variant case; "
     "the property excludes them and so do the theorems' side conditions and the oracle",
     "the lazily filled plural of a ResourceFunction's kr8s class (apiConfig without `plural`) is not counted "
@@ -88,10 +90,45 @@ def canon(v):
     if isinstance(v, str):
         return str(v)
     if isinstance(v, dict):
-        return {str(k): canon(x) for k, x in v.items()}
+        return {canon_key(k): canon(x) for k, x in v.items()}
     if isinstance(v, (list, tuple)):
         return [canon(x) for x in v]
     return {"__repr__": IDX_RE.sub("testCases[#]", repr(v))}
+
+
+def canon_key(k):
+    """map keys: strings as they are; CEL / Python maps may have int, bool ... keys, which JSON cannot
+    express — keep them apart from the string that spells the same"""
+    from celpy import celtypes
+    if isinstance(k, str):
+        return str(k)
+    if isinstance(k, (bool, celtypes.BoolType)):
+        return f"<bool:{bool(k)}>"
+    if isinstance(k, int):
+        return f"<int:{int(k)}>"
+    return f"<{type(k).__name__}:{k}>"
+
+
+TYPED_KEY = re.compile(r"^<[A-Za-z]+:.*>$")
+
+
+def has_typed_keys(doc):
+    if isinstance(doc, dict):
+        return any(TYPED_KEY.match(k) for k in doc) or any(has_typed_keys(v) for v in doc.values())
+    if isinstance(doc, list):
+        return any(has_typed_keys(v) for v in doc)
+    return False
+
+
+def replace_typed_maps(doc):
+    """an expectation that mismatches every map with non-string keys by >= 2 unexpected keys of different types"""
+    if isinstance(doc, dict):
+        if any(TYPED_KEY.match(k) for k in doc):
+            return {"zz": 1}
+        return {k: replace_typed_maps(v) for k, v in doc.items()}
+    if isinstance(doc, list):
+        return [replace_typed_maps(v) for v in doc]
+    return doc
 
 
 def norm_text(s):
@@ -143,7 +180,7 @@ PRE = [
 ]
 
 
-def rf_spec(kind, plural=True, update=None, create=None, readonly=False, delete=False, post=True, annot=False):
+def rf_spec(kind, plural=True, update=None, create=None, readonly=False, delete=False, post=True, annot=False, keyed=False):
     spec = {
         "apiConfig": {"apiVersion": "c18.koreo.dev/v1", "kind": kind, "name": "=inputs.name", "namespace": "ns"},
         "preconditions": copy.deepcopy(PRE),
@@ -152,9 +189,13 @@ def rf_spec(kind, plural=True, update=None, create=None, readonly=False, delete=
         "return": {"a": "=has(resource.spec) ? resource.spec.a : -1",
                    "tags": "=has(resource.spec) && has(resource.spec.tags) ? resource.spec.tags : ['none', 'at', 'all']",
                    "ports": "=has(resource.spec) && has(resource.spec.ports) ? resource.spec.ports : []",
+
                    "ready": "=has(resource.status) && has(resource.status.ready)",
                    "n": "=inputs.a + 1"},
     }
+    if keyed:
+        # a returned map whose keys are an int, a string and a bool (computed by a CEL map literal)
+        spec["return"]["keyed"] = "={inputs.a + 100: 'by-number', 'name': inputs.name, true: 'flag'}"
     if annot:
         # user annotations next to Koreo's last-applied one, a field compared against last-applied, and
         # a return value that reads the annotations: the next case's behaviour depends on the WHOLE
@@ -188,19 +229,20 @@ def rf_spec(kind, plural=True, update=None, create=None, readonly=False, delete=
 def zoo():
     return [
         {"kind": "ResourceFunction", "name": "c18-patch", "spec": rf_spec("WidgetP", create={"overlay": {"spec": {"created": True}}, "delay": 11})},
-        {"kind": "ResourceFunction", "name": "c18-recreate", "spec": rf_spec("WidgetR", update={"recreate": {"delay": 5}})},
-        {"kind": "ResourceFunction", "name": "c18-never", "spec": rf_spec("WidgetN", update={"never": {}}, post=False)},
-        {"kind": "ResourceFunction", "name": "c18-readonly", "spec": rf_spec("WidgetO", readonly=True)},
+        {"kind": "ResourceFunction", "name": "c18-recreate", "spec": rf_spec("WidgetR", update={"recreate": {"delay": 5}}, keyed=True)},
+        {"kind": "ResourceFunction", "name": "c18-never", "spec": rf_spec("WidgetN", update={"never": {}}, post=False, keyed=True)},
+        {"kind": "ResourceFunction", "name": "c18-readonly", "spec": rf_spec("WidgetO", readonly=True, keyed=True)},
         {"kind": "ResourceFunction", "name": "c18-delete", "spec": rf_spec("WidgetD", delete=True, post=False)},
         {"kind": "ResourceFunction", "name": "c18-lookup", "spec": rf_spec("WidgetL", plural=False)},
         {"kind": "ResourceFunction", "name": "c18-annot", "spec": rf_spec("WidgetA", annot=True)},
-        {"kind": "ResourceFunction", "name": "c18-annot-nopost", "spec": rf_spec("WidgetB", annot=True, post=False)},
+        {"kind": "ResourceFunction", "name": "c18-annot-nopost", "spec": rf_spec("WidgetB", annot=True, post=False, keyed=True)},
         {"kind": "ValueFunction", "name": "c18-value", "spec": {
             "preconditions": copy.deepcopy(PRE),
             "locals": {"twice": "=inputs.a * 2"},
             "return": {"twice": "=locals.twice", "b": "=inputs.b", "name": "=inputs.name",
                        "tags": ["=inputs.name", "zeta", "alpha"],
-                       "ports": [{"name": "http", "port": "=inputs.a"}, {"name": "admin", "port": 9}]}}},
+                       "ports": [{"name": "http", "port": "=inputs.a"}, {"name": "admin", "port": 9}],
+                       "keyed": "={80: 'http', 'alias': inputs.name, false: 'flag'}"}}},
         {"kind": "ValueFunction", "name": "c18-value-res", "spec": {
             "preconditions": copy.deepcopy(PRE),
             "return": {"seen": "=resource.spec.a + inputs.a", "status": {"from": "=inputs.name"}}}},
@@ -448,9 +490,15 @@ def _build_assertion(fn, pref, truthful, ob, rng):
                 return {"expectResource": want}
             return {"expectResource": {"zz": 1}}
     if pref == "return":
-        if truthful and view["class"] == "Ok" and isinstance(view["value"], dict) and view["value"]:
+        typed = view["class"] == "Ok" and has_typed_keys(view["value"])
+        if truthful and view["class"] == "Ok" and isinstance(view["value"], dict) and view["value"] and not typed:
             return {"expectReturn": view["value"]}
-        elif not truthful:
+        elif truthful:
+            pass            # not Ok, or a map with non-string keys (no JSON expectation can match it): assert the outcome instead
+        else:
+            if typed and rng.random() < 0.7:
+                # mismatch inside the maps with int/bool/string keys (several unexpected keys of different types)
+                return {"expectReturn": replace_typed_maps(view["value"])}
             if view["class"] == "Ok" and isinstance(view["value"], dict) and view["value"] and rng.random() < 0.5:
                 want = copy.deepcopy(view["value"])
                 want["zz"] = 1
@@ -745,8 +793,15 @@ class Env:
             res = await run.run_function_test(location=LOC, function_test=ft)
         except Exception as e:       # the whole run raised
             raised = type(e).__name__
+            injected = "c18 injected" in str(e)
+            text = norm_text(str(e))[:200]
         rec, REC = REC, None
         ob = {"raised": raised, "results": [], "fatal": None, "trace": rec.cases if rec else []}
+        if raised:
+            ob["injected"] = injected            # the harness's own fault injection (mock API raising)
+            ob["raise_text"] = text
+            tr = ob["trace"]
+            ob["crash_idx"] = tr[-1]["idx"] if tr and tr[-1].get("crashed") else None
         if res is not None:
             ob["results"] = [result_view(r) for r in res.test_results]
             ob["fatal"] = bool(res.fatal_error)
@@ -807,10 +862,29 @@ def is_setup_error(c, ent):
 
 def compare_runs(base_test, base_ob, der_test, der_ob, order_preserved, exclude=()):
     """None, or (signature, description, label) for the first case whose result changed"""
-    if base_ob["raised"] or der_ob["raised"]:
-        return None          # a crashing case is outside the property (reported separately)
+    if base_ob.get("injected") or der_ob.get("injected"):
+        return None          # the harness made the mock API raise: not the runner's doing
+    if base_ob["raised"] and der_ob["raised"]:
+        return None          # both runs raise: no case has a result in either
     a, sa = run_summary(base_test, base_ob)
     b, sb = run_summary(der_test, der_ob)
+    if base_ob["raised"] or der_ob["raised"]:
+        # one run raised (no case has a result), the other completed: every other case's result changed
+        r_test, r_ob, o_sum, o_setup = ((base_test, base_ob, b, sb) if base_ob["raised"] else (der_test, der_ob, a, sa))
+        j = r_ob.get("crash_idx")
+        if j is None:
+            return None
+        c = r_test["cases"][j]
+        eo = o_sum.get(c["label"])
+        if eo is not None and o_setup is not None and eo["pos"] >= o_setup:
+            return None      # in the other run that case lies behind a setup error (excluded)
+        if c["label"] in exclude:
+            return None
+        if c.get("variant") or (eo is not None and eo["executed"] and eo["prefix"] == carrying_prefix(r_test["cases"], j)):
+            who = "variant" if c.get("variant") else "non-variant"
+            return ("run-raised", f"run_function_test raised {r_ob['raised']} ({r_ob.get('raise_text')}) in {who} case "
+                    f"{c['label']} in one run, so no case has a result there; the other run completed", c["label"])
+        return None
     for label, ea in a.items():
         eb = b.get(label)
         if eb is None or ea["prefix"] != eb["prefix"] or label in exclude:
@@ -834,6 +908,17 @@ def compare_runs(base_test, base_ob, der_test, der_ob, order_preserved, exclude=
             if skey(jsonable(ra[field])) != skey(jsonable(rb[field])):
                 return (f"result-{field}", f"case {label}: {field} {ra[field]!r} became {rb[field]!r}", label)
     return None
+
+
+def crash_oracle(test, ob):
+    """a VARIANT case must leave no trace; if an exception escapes from it, run_function_test raises and
+    every other case loses its result.  (Exceptions injected by the harness's mock API are not counted.)"""
+    if not ob["raised"] or ob.get("injected") or ob.get("crash_idx") is None:
+        return None
+    c = test["cases"][ob["crash_idx"]]
+    if not c.get("variant"):
+        return None
+    return (f"variant case makes run_function_test raise: {ob['raised']}", ob["crash_idx"])
 
 
 def chain_oracle(test, ob):
@@ -1157,6 +1242,25 @@ async def shrink_cases(env, test, still):
     return dict(test, cases=cases)
 
 
+async def report_crash(ctx, env, test, ob):
+    bad = crash_oracle(test, ob)
+    if not bad:
+        return
+    sig, k = bad
+    small = dict(test, cases=test["cases"][:k + 1])
+    if sig not in _SHRUNK:
+        _SHRUNK.add(sig)
+
+        async def still(t):
+            b = crash_oracle(t, await env.run(await env.prepare(t)))
+            return bool(b) and b[0] == sig
+        small = await shrink_cases(env, small, still)
+    ctx.fail(Failure(signature=sig,
+                     what=f"an exception ({ob['raised']}: {ob.get('raise_text')}) escaped from variant case "
+                          f"{test['cases'][k]['label']}: the whole run raises and every other case loses its result",
+                     case={"test": small}, observed=ob["raised"], expected="a failed (or passed) variant case and a completed run"))
+
+
 async def check_test(ctx: Ctx, env: Env, fn, test, rng, cases_out, terms_out, do_derive=True, derive_kinds=None):
     """run T and its derived tests; oracle + snapshot monitor; collect correspondence terms.
     Returns the base observation."""
@@ -1173,6 +1277,7 @@ async def check_test(ctx: Ctx, env: Env, fn, test, rng, cases_out, terms_out, do
             _SHRUNK.add(sig)
             small = await shrink_cases(env, test, lambda t, sig=sig: monitor_has(env, fn, t, sig))
         ctx.fail(Failure(signature=sig, what=what, case={"test": small}, observed=observed, expected=expected))
+    await report_crash(ctx, env, test, ob)
     bad = chain_oracle(test, ob)
     if bad:
         sig, k, got, want = bad
@@ -1219,6 +1324,7 @@ async def check_test(ctx: Ctx, env: Env, fn, test, rng, cases_out, terms_out, do
             continue
         dob = await env.run(dft)
         ctx.count(f"derived:{name}")
+        await report_crash(ctx, env, der, dob)
         dterm, dconf = to_coq(der, dob)
         cases_out.append({"test": der, "how": name})
         terms_out.append(dterm)
